@@ -1686,6 +1686,29 @@ def ovmb_encoding_rules(ck, fb):
         ok = any(("size()" in s_ or "span.count" in s_) and "0" in s_ and (("==" in s_ and p_ is False) or ("!=" in s_ and p_ is True) or (">" in s_ and p_ is True)) for s_, p_, c_ in cn.facts(b))
         (ck.ok if ok else lambda r_, w_, t_: ck.violate(r_, w_, t_, "C06.emptyprop"))("C06.emptyprop", f.loc(x), "write_all_props serialises a property only under the fact that it has elements")
     ck.floor("prop_serialize_sites", len(ser), 1)
+    # the PROP chunk names its property by position in the directory that write_propdir wrote from the same props_ list:
+    # the running index has to advance for every entry of props_, also for one that gets no chunk (round 5, C06i)
+    ck.rule("C06.propidx", "write_all_props numbers the PROP chunks by the position of the property in props_ (the order of the directory): a running counter is incremented on every turn of the loop over props_, before any `continue`")
+    idxs = [(b, i, x, cn.s(x)) for b, i, x in f.tops() if b in f.reach() and re.search(r"\.idx = ", cn.s(x))]
+    ck.floor("prop_chunk_idx_sites", len(idxs), 1)
+    for b, i, x, sx in idxs:
+        rhs = sx.split(".idx = ", 1)[1].rstrip(")").strip()
+        m = re.fullmatch(r"\(?(it\d+\(0\))\+\+\)?|\(?\+\+(it\d+\(0\))\)?", rhs)
+        lp = [(hdr, body, backs) for hdr, body, backs in f.loops() if b in body and f.term(hdr) and "props_" in cn.s(f.term(hdr).get("cond") or {})]
+        if not lp:
+            ck.violate("C06.propidx", f.loc(x), "write_all_props: the chunk index is not assigned inside the loop over props_", "C06.propidx:loop")
+            continue
+        hdr, body, backs = min(lp, key=lambda z: len(z[1]))
+        if m:
+            ctr = m.group(1) or m.group(2)
+            incs = [(b2, i2) for b2, i2, y in f.tops() if b2 in f.reach() and (ctr + "++" in cn.s(y) or "++" + ctr in cn.s(y) or ("(" + ctr + " += 1)") in cn.s(y))]
+            latches = [bb for bb in body if hdr in f.succ(bb)]
+            ok = len(incs) == 1 and incs[0][0] in body and all(f.dominates(incs[0], (l_, 0)) or incs[0][0] == l_ for l_ in latches)
+            (ck.ok if ok else lambda r_, w_, t_: ck.violate(r_, w_, t_, "C06.propidx"))("C06.propidx", f.loc(x), "write_all_props: the counter behind the chunk index is incremented exactly once on every turn of the loop over props_ (%d increment site(s), %d back edge(s))" % (len(incs), len(latches)))
+        elif re.fullmatch(r"\(?it\d+\(0\)\)?", rhs) and rhs.strip("()") in cn.s(f.term(hdr).get("cond") or {}):
+            ck.ok("C06.propidx", f.loc(x), "write_all_props: the chunk index is the index variable of the loop over props_")
+        else:
+            ck.cannot_judge("C06.propidx %s: unknown formulation of the chunk index (%s)" % (f.loc(x), rhs[:80]))
 
 
 WIDTH = {"bool": 1, "char": 8, "signed char": 8, "unsigned char": 8, "short": 16, "unsigned short": 16, "int": 32, "unsigned int": 32, "unsigned": 32,
